@@ -1,17 +1,1179 @@
-//! C12 — correspondence driver (stub: not built yet).
+//! C12 — matrix views and partitions.  See lean/Driver/C12.lean for the protocol.
+//!
+//! A composition is kept as a recipe (leaf size + adaptor list) and as a live
+//! `Box<dyn MatrixMut<u64>>`; operations that need the leaf afterwards (writes followed by a scan
+//! of the matrix) rebuild the recipe over a leaked leaf and reclaim it after the view is gone.
 
+use crate::c16::{bset, MDyn};
 use crate::util::*;
+use easy_ml::differentiation::RecordMatrix;
+use easy_ml::interop::{MatrixRefTensor, TensorRefMatrix};
+use easy_ml::matrices::views::{
+    IndexRange, MatrixMut, MatrixPart, MatrixRange, MatrixRef, MatrixReverse, MatrixView, Reverse,
+};
+use easy_ml::matrices::Matrix;
 
-pub fn gen(_g: &mut Gen) {}
+const SENTINEL: u64 = 999_999_999;
+const MAX: usize = usize::MAX;
 
-pub struct Runner;
+#[derive(Clone, Debug)]
+enum Op {
+    Range((usize, usize), (usize, usize), String),
+    Reverse(bool, bool, String),
+    Roundtrip,
+}
+
+fn ids(n: usize) -> Vec<u64> {
+    (0..n as u64).collect()
+}
+
+/// Applies one adaptor to a boxed view over elements of type `T`.
+fn apply<T: 'static>(m: Box<dyn MatrixMut<T>>, op: &Op) -> Result<Box<dyn MatrixMut<T>>, String> {
+    Ok(match op {
+        Op::Range(r, c, via) => match via.as_str() {
+            "tuple" => Box::new(MatrixRange::from(m, *r, *c)),
+            "array" => Box::new(MatrixRange::from(m, [r.0, r.1], [c.0, c.1])),
+            "range" => Box::new(MatrixRange::from(m, r.0..(r.0 + r.1), c.0..(c.0 + c.1))),
+            "view" => Box::new(
+                MatrixView::from(m).range_owned(IndexRange::new(r.0, r.1), IndexRange::new(c.0, c.1)).source(),
+            ),
+            _ => Box::new(MatrixRange::from(m, IndexRange::new(r.0, r.1), IndexRange::new(c.0, c.1))),
+        },
+        Op::Reverse(r, c, via) => {
+            let reverse = Reverse { rows: *r, columns: *c };
+            match via.as_str() {
+                "view" => Box::new(MatrixView::from(m).reverse_owned(reverse).source()),
+                _ => Box::new(MatrixReverse::from(m, reverse)),
+            }
+        }
+        Op::Roundtrip => {
+            // try on a reference first: with_names consumes its source
+            if let Err(e) = TensorRefMatrix::from(&m) {
+                return Err(format!("err {}", show_shape(&e.shape())));
+            }
+            let t = TensorRefMatrix::from(m).ok().unwrap();
+            Box::new(MatrixRefTensor::from(t))
+        }
+    })
+}
+
+fn build<T: 'static>(leaf: Box<dyn MatrixMut<T>>, ops: &[Op]) -> Box<dyn MatrixMut<T>> {
+    let mut v = leaf;
+    for op in ops {
+        v = apply(v, op).expect("recipe was accepted before");
+    }
+    v
+}
+
+fn show_opt(v: Option<u64>) -> String {
+    match v {
+        Some(x) => format!("some({})", x),
+        None => "none".into(),
+    }
+}
+
+fn show_ids(v: &[u64]) -> String {
+    if v.is_empty() {
+        "-".into()
+    } else {
+        v.iter().map(|x| x.to_string()).collect::<Vec<_>>().join(",")
+    }
+}
+
+fn changed(before: &[u64], after: &[u64]) -> String {
+    let ch: Vec<String> =
+        (0..before.len()).filter(|&i| before[i] != after[i]).map(|i| i.to_string()).collect();
+    if ch.is_empty() {
+        "none".into()
+    } else {
+        format!("changed={}", ch.join(","))
+    }
+}
+
+
+// ---------------------------------------------------------------------------------------------
+// views whose source is changed after construction
+// ---------------------------------------------------------------------------------------------
+
+/// An object from which `source_ref_mut()` (repeated) reaches the `Matrix` at the bottom.
+trait LiveNode: MatrixMut<u64> {
+    fn matrix_mut(&mut self) -> &mut Matrix<u64>;
+    fn matrix_ref(&self) -> &Matrix<u64>;
+    /// `source_ref()` k times, then the checked getter (`None`: no such inner object)
+    fn get_at(&self, k: usize, r: usize, c: usize) -> Option<Option<u64>>;
+}
+
+impl LiveNode for Matrix<u64> {
+    fn matrix_mut(&mut self) -> &mut Matrix<u64> {
+        self
+    }
+    fn matrix_ref(&self) -> &Matrix<u64> {
+        self
+    }
+    fn get_at(&self, k: usize, r: usize, c: usize) -> Option<Option<u64>> {
+        if k == 0 { Some(MatrixRef::try_get_reference(self, r, c).copied()) } else { None }
+    }
+}
+
+impl LiveNode for &'static mut Matrix<u64> {
+    fn matrix_mut(&mut self) -> &mut Matrix<u64> {
+        &mut **self
+    }
+    fn matrix_ref(&self) -> &Matrix<u64> {
+        &**self
+    }
+    fn get_at(&self, k: usize, r: usize, c: usize) -> Option<Option<u64>> {
+        if k == 0 { Some(MatrixRef::try_get_reference(self, r, c).copied()) } else { None }
+    }
+}
+
+impl LiveNode for Box<Matrix<u64>> {
+    fn matrix_mut(&mut self) -> &mut Matrix<u64> {
+        &mut **self
+    }
+    fn matrix_ref(&self) -> &Matrix<u64> {
+        &**self
+    }
+    fn get_at(&self, k: usize, r: usize, c: usize) -> Option<Option<u64>> {
+        if k == 0 { Some(MatrixRef::try_get_reference(self, r, c).copied()) } else { None }
+    }
+}
+
+impl<S: LiveNode> LiveNode for MatrixReverse<u64, S> {
+    fn matrix_mut(&mut self) -> &mut Matrix<u64> {
+        self.source_ref_mut().matrix_mut()
+    }
+    fn matrix_ref(&self) -> &Matrix<u64> {
+        self.source_ref().matrix_ref()
+    }
+    fn get_at(&self, k: usize, r: usize, c: usize) -> Option<Option<u64>> {
+        if k == 0 {
+            Some(self.try_get_reference(r, c).copied())
+        } else {
+            self.source_ref().get_at(k - 1, r, c)
+        }
+    }
+}
+
+type R1<S> = MatrixReverse<u64, S>;
+
+/// zero to three `MatrixReverse`s around a source of type `S`
+enum Chain<S> {
+    D0(S),
+    D1(R1<S>),
+    D2(R1<R1<S>>),
+    D3(R1<R1<R1<S>>>),
+}
+
+impl<S: LiveNode> Chain<S> {
+    fn wrap(self, reverse: Reverse) -> Chain<S> {
+        match self {
+            Chain::D0(s) => Chain::D1(MatrixReverse::from(s, reverse)),
+            Chain::D1(s) => Chain::D2(MatrixReverse::from(s, reverse)),
+            Chain::D2(s) => Chain::D3(MatrixReverse::from(s, reverse)),
+            Chain::D3(_) => panic!("unsupported depth"),
+        }
+    }
+    fn unwrap(self) -> Chain<S> {
+        match self {
+            Chain::D0(_) => panic!("nothing to unwrap"),
+            Chain::D1(s) => Chain::D0(s.source()),
+            Chain::D2(s) => Chain::D1(s.source()),
+            Chain::D3(s) => Chain::D2(s.source()),
+        }
+    }
+}
+
+enum AnyLive {
+    Owned(Chain<Matrix<u64>>),
+    MutRef(Chain<&'static mut Matrix<u64>>),
+    Boxed(Chain<Box<Matrix<u64>>>),
+}
+
+macro_rules! with_chain {
+    ($chain:expr, $n:ident => $body:expr) => {
+        match $chain {
+            Chain::D0($n) => $body,
+            Chain::D1($n) => $body,
+            Chain::D2($n) => $body,
+            Chain::D3($n) => $body,
+        }
+    };
+}
+
+macro_rules! with_node {
+    ($any:expr, $n:ident => $body:expr) => {
+        match $any {
+            AnyLive::Owned(ch) => with_chain!(ch, $n => $body),
+            AnyLive::MutRef(ch) => with_chain!(ch, $n => $body),
+            AnyLive::Boxed(ch) => with_chain!(ch, $n => $body),
+        }
+    };
+}
+
+impl AnyLive {
+    fn map_chain(self, wrap: Option<Reverse>) -> AnyLive {
+        match (self, wrap) {
+            (AnyLive::Owned(c), Some(r)) => AnyLive::Owned(c.wrap(r)),
+            (AnyLive::MutRef(c), Some(r)) => AnyLive::MutRef(c.wrap(r)),
+            (AnyLive::Boxed(c), Some(r)) => AnyLive::Boxed(c.wrap(r)),
+            (AnyLive::Owned(c), None) => AnyLive::Owned(c.unwrap()),
+            (AnyLive::MutRef(c), None) => AnyLive::MutRef(c.unwrap()),
+            (AnyLive::Boxed(c), None) => AnyLive::Boxed(c.unwrap()),
+        }
+    }
+}
+
+fn live_size<N: LiveNode>(n: &N) -> String {
+    format!("size={}x{}", n.view_rows(), n.view_columns())
+}
+
+fn live_step<N: LiveNode>(n: &mut N, toks: &[&str], via: &str) -> String {
+    match toks[0] {
+        "src" => {
+            // `source_ref_mut()` … down to the matrix (optionally entering through a MatrixView)
+            let r = if via == "view" {
+                let mut view = MatrixView::from(&mut *n);
+                crate::c11::apply(view.source_ref_mut().matrix_mut(), &toks[1..])
+            } else {
+                crate::c11::apply(n.matrix_mut(), &toks[1..])
+            };
+            match r {
+                None => "bad-op".into(),
+                Some(Ok(())) => format!("ok {}", live_size(n)),
+                Some(Err(k)) => format!("{} {}", panic_str(k), live_size(n)),
+            }
+        }
+        "lget" | "luget" => {
+            let (r, c): (usize, usize) = (toks[1].parse().unwrap(), toks[2].parse().unwrap());
+            let unchecked = toks[0] == "luget";
+            let res = catch(|| {
+                if unchecked {
+                    Some(unsafe {
+                        if via == "unchecked_mut" {
+                            *n.get_reference_unchecked_mut(r, c)
+                        } else {
+                            *n.get_reference_unchecked(r, c)
+                        }
+                    })
+                } else {
+                    match via {
+                        "mut" => n.try_get_reference_mut(r, c).map(|x| *x),
+                        "view" => MatrixView::from(&*n).try_get_reference(r, c).copied(),
+                        "view_mut" => MatrixView::from(&mut *n).try_get_reference_mut(r, c).map(|x| *x),
+                        _ => n.try_get_reference(r, c).copied(),
+                    }
+                }
+            });
+            answer(res, |o| if unchecked { o.unwrap().to_string() } else { show_opt(o) })
+        }
+        "lscan" => {
+            let (rows, cols) = (n.view_rows(), n.view_columns());
+            let res = catch(|| -> Vec<u64> {
+                let view = MatrixView::from(&*n);
+                match via {
+                    "reference" => view.row_major_reference_iter().copied().collect(),
+                    "index" => {
+                        let mut out = vec![];
+                        for r in 0..rows {
+                            for c in 0..cols {
+                                out.push(view.get(r, c));
+                            }
+                        }
+                        out
+                    }
+                    _ => view.row_major_iter().collect(),
+                }
+            });
+            answer(res, |v| format!("{}x{}:{}", rows, cols, show_ids(&v)))
+        }
+        "lset" => {
+            let (r, c): (usize, usize) = (toks[1].parse().unwrap(), toks[2].parse().unwrap());
+            let before: Vec<u64> = n.matrix_ref().row_major_iter().collect();
+            let res = catch(|| match via {
+                "unchecked" => unsafe {
+                    // only emitted for indexes inside the view
+                    *n.get_reference_unchecked_mut(r, c) = SENTINEL;
+                },
+                "view" => {
+                    if let Some(x) = MatrixView::from(&mut *n).try_get_reference_mut(r, c) {
+                        *x = SENTINEL;
+                    }
+                }
+                _ => {
+                    if let Some(x) = n.try_get_reference_mut(r, c) {
+                        *x = SENTINEL;
+                    }
+                }
+            });
+            let after: Vec<u64> = n.matrix_ref().row_major_iter().collect();
+            // put the old elements back: the model does not record this write
+            let cols = n.matrix_ref().columns();
+            for (i, (b, a)) in before.iter().zip(after.iter()).enumerate() {
+                if b != a {
+                    n.matrix_mut().set(i / cols, i % cols, *b);
+                }
+            }
+            answer(res, |_| changed(&before, &after))
+        }
+        "srcget" => {
+            let k: usize = toks[1].parse().unwrap();
+            let (r, c): (usize, usize) = (toks[2].parse().unwrap(), toks[3].parse().unwrap());
+            match catch(|| n.get_at(k, r, c)) {
+                Ok(Some(o)) => show_opt(o),
+                Ok(None) => "bad-op".into(),
+                Err(k) => panic_str(k),
+            }
+        }
+        _ => "bad-op".into(),
+    }
+}
+
+fn new_live(rows: usize, cols: usize, flags: &[(bool, bool)], src: &str) -> AnyLive {
+    let m = Matrix::from_flat_row_major((rows, cols), (1..=(rows * cols) as u64).collect());
+    let mut any = match src {
+        "mut" => AnyLive::MutRef(Chain::D0(Box::leak(Box::new(m)))),
+        "boxed" => AnyLive::Boxed(Chain::D0(Box::new(m))),
+        _ => AnyLive::Owned(Chain::D0(m)),
+    };
+    for (r, c) in flags {
+        any = any.map_chain(Some(Reverse { rows: *r, columns: *c }));
+    }
+    any
+}
+
+pub struct Runner {
+    live: Option<AnyLive>,
+    leaf: (usize, usize),
+    ops: Vec<Op>,
+    view: Option<MDyn>,
+    mapped: bool,
+    parts: Vec<MatrixView<u64, MatrixPart<'static, u64>>>,
+    part_matrix: *mut Matrix<u64>,
+    partition_args: Option<(usize, usize, Vec<usize>, Vec<usize>, String)>,
+}
+
+fn answer<T>(r: Result<T, PanicKind>, f: impl FnOnce(T) -> String) -> String {
+    match r {
+        Ok(v) => f(v),
+        Err(k) => panic_str(k),
+    }
+}
 
 impl Runner {
     pub fn new() -> Runner {
-        Runner
+        Runner {
+            live: None,
+            leaf: (0, 0),
+            ops: vec![],
+            view: None,
+            mapped: false,
+            parts: vec![],
+            part_matrix: std::ptr::null_mut(),
+            partition_args: None,
+        }
     }
 
-    pub fn step(&mut self, _toks: &[&str]) -> String {
-        "unimplemented".into()
+    fn drop_parts(&mut self) {
+        self.parts.clear();
+        if !self.part_matrix.is_null() {
+            // the parts (the only borrowers) are gone: reclaim the leaked matrix
+            unsafe { drop(Box::from_raw(self.part_matrix)) };
+            self.part_matrix = std::ptr::null_mut();
+        }
     }
+
+    fn make_parts(&mut self) -> Result<(), PanicKind> {
+        self.drop_parts();
+        let (r, c, rp, cp, via) = self.partition_args.clone().unwrap();
+        let ptr: *mut Matrix<u64> = Box::into_raw(Box::new(Matrix::from_flat_row_major((r, c), ids(r * c))));
+        self.part_matrix = ptr;
+        let m: &'static mut Matrix<u64> = unsafe { &mut *ptr };
+        let res = catch(move || match via.as_str() {
+            "quadrants" if rp.len() == 1 && cp.len() == 1 => {
+                let q = m.partition_quadrants(rp[0], cp[0]);
+                vec![q.top_left, q.top_right, q.bottom_left, q.bottom_right]
+            }
+            _ => m.partition(&rp, &cp),
+        });
+        match res {
+            Ok(parts) => {
+                self.parts = parts;
+                Ok(())
+            }
+            Err(k) => {
+                self.drop_parts();
+                Err(k)
+            }
+        }
+    }
+
+    pub fn step(&mut self, toks: &[&str]) -> String {
+        if toks.is_empty() {
+            return "bad-op".into();
+        }
+        let via = opt_arg("via", toks).unwrap_or("").to_string();
+        if toks[0] == "@" {
+            self.view = None;
+            self.ops.clear();
+            self.mapped = false;
+            self.drop_parts();
+            self.partition_args = None;
+            self.live = None;
+            return match toks[1] {
+                "live" => {
+                    let (r, c): (usize, usize) = (toks[2].parse().unwrap(), toks[3].parse().unwrap());
+                    let flags: Vec<(bool, bool)> = split_comma(toks[4])
+                        .iter()
+                        .map(|p| {
+                            let (a, b) = p.split_once(':').unwrap();
+                            (a == "1", b == "1")
+                        })
+                        .collect();
+                    let src = opt_arg("src", toks).unwrap_or("owned");
+                    let mut any = new_live(r, c, &flags, src);
+                    let s = with_node!(&mut any, n => live_size(n));
+                    self.live = Some(any);
+                    format!("ok {}", s)
+                }
+                "matrix" => {
+                    let (r, c): (usize, usize) = (toks[2].parse().unwrap(), toks[3].parse().unwrap());
+                    self.leaf = (r, c);
+                    self.view = Some(Box::new(Matrix::from_flat_row_major((r, c), ids(r * c))));
+                    format!("ok size={}x{}", r, c)
+                }
+                "partition" => {
+                    let (r, c): (usize, usize) = (toks[2].parse().unwrap(), toks[3].parse().unwrap());
+                    self.partition_args = Some((r, c, parse_usizes(toks[4]), parse_usizes(toks[5]), via));
+                    match self.make_parts() {
+                        Ok(()) => format!(
+                            "ok sizes={}",
+                            self.parts.iter().map(|p| format!("{}x{}", p.rows(), p.columns())).collect::<Vec<_>>().join(";")
+                        ),
+                        Err(k) => panic_str(k),
+                    }
+                }
+                _ => "bad-op".into(),
+            };
+        }
+        match toks[0] {
+            "src" | "lget" | "luget" | "lscan" | "lset" | "srcget" => match self.live.as_mut() {
+                None => "no-view".into(),
+                Some(any) => with_node!(any, n => live_step(n, toks, &via)),
+            },
+            "wrap" | "unwrap" => match self.live.take() {
+                None => "no-view".into(),
+                Some(any) => {
+                    let wrap = if toks[0] == "wrap" {
+                        Some(Reverse { rows: toks[1] == "1", columns: toks[2] == "1" })
+                    } else {
+                        None
+                    };
+                    let mut any = any.map_chain(wrap);
+                    let s = with_node!(&mut any, n => live_size(n));
+                    self.live = Some(any);
+                    format!("ok {}", s)
+                }
+            },
+            "mrange" | "mreverse" | "roundtrip" => {
+                let op = match toks[0] {
+                    "mrange" => {
+                        let p = |s: &str| -> (usize, usize) {
+                            let (a, b) = s.split_once(':').unwrap();
+                            (a.parse().unwrap(), b.parse().unwrap())
+                        };
+                        Op::Range(p(toks[1]), p(toks[2]), via)
+                    }
+                    "mreverse" => Op::Reverse(toks[1] == "1", toks[2] == "1", via),
+                    _ => Op::Roundtrip,
+                };
+                let v = match self.view.take() {
+                    Some(v) => v,
+                    None => return "no-view".into(),
+                };
+                let r = catch(|| apply(v, &op));
+                match r {
+                    Err(k) => panic_str(k),
+                    Ok(Err(e)) => {
+                        // the refused source was consumed by the attempt on a reference only
+                        let leaf: MDyn =
+                            Box::new(Matrix::from_flat_row_major(self.leaf, ids(self.leaf.0 * self.leaf.1)));
+                        self.view = Some(build(leaf, &self.ops));
+                        e
+                    }
+                    Ok(Ok(w)) => {
+                        self.ops.push(op);
+                        let s = format!("ok size={}x{}", w.view_rows(), w.view_columns());
+                        self.view = Some(w);
+                        s
+                    }
+                }
+            }
+            "mmap" => match &self.view {
+                // MatrixMap is crate-private: it is exercised by `scan via=display`
+                Some(v) => {
+                    self.mapped = true;
+                    format!("ok size={}x{}", v.view_rows(), v.view_columns())
+                }
+                None => "no-view".into(),
+            },
+            "mget" | "uget" => {
+                let (r, c): (usize, usize) = (toks[1].parse().unwrap(), toks[2].parse().unwrap());
+                let unchecked = toks[0] == "uget";
+                match self.view.as_mut() {
+                    None => "no-view".into(),
+                    Some(m) => {
+                        let res = catch(|| {
+                            if unchecked {
+                                // only emitted for indexes inside the view
+                                Some(unsafe {
+                                    if via == "unchecked_mut" {
+                                        *m.get_reference_unchecked_mut(r, c)
+                                    } else {
+                                        *m.get_reference_unchecked(r, c)
+                                    }
+                                })
+                            } else {
+                                match via.as_str() {
+                                    "mut" => m.try_get_reference_mut(r, c).map(|x| *x),
+                                    "view" => MatrixView::from(&*m).try_get_reference(r, c).copied(),
+                                    "view_mut" => MatrixView::from(&mut *m).try_get_reference_mut(r, c).map(|x| *x),
+                                    _ => m.try_get_reference(r, c).copied(),
+                                }
+                            }
+                        });
+                        answer(res, |o| if unchecked { o.unwrap().to_string() } else { show_opt(o) })
+                    }
+                }
+            }
+            "scan" => match self.view.as_ref() {
+                None => "no-view".into(),
+                Some(m) => {
+                    let (rows, cols) = (m.view_rows(), m.view_columns());
+                    let leaf = self.leaf;
+                    let ops = self.ops.clone();
+                    let res = catch(|| -> Vec<u64> {
+                        let view = MatrixView::from(&*m);
+                        match via.as_str() {
+                            "column_major" => {
+                                let cm: Vec<u64> = view.column_major_iter().collect();
+                                let mut rm = vec![0; cm.len()];
+                                for (k, x) in cm.iter().enumerate() {
+                                    let (c, r) = (k / rows.max(1), k % rows.max(1));
+                                    rm[r * cols + c] = *x;
+                                }
+                                rm
+                            }
+                            "reference" => view.row_major_reference_iter().copied().collect(),
+                            // row_iter requires the row to have a first element (C09's business)
+                            "rows" if cols > 0 => (0..rows).flat_map(|r| view.row_iter(r).collect::<Vec<_>>()).collect(),
+                            "rows" => vec![],
+                            "index" => {
+                                let mut out = vec![];
+                                for r in 0..rows {
+                                    for c in 0..cols {
+                                        out.push(view.get(r, c));
+                                    }
+                                }
+                                out
+                            }
+                            "display" => {
+                                // Display of a RecordMatrix goes through MatrixMap
+                                let data: Vec<(f64, usize)> = (0..leaf.0 * leaf.1).map(|i| (i as f64, 0usize)).collect();
+                                let lf: Box<dyn MatrixMut<(f64, usize)>> =
+                                    Box::new(Matrix::from_flat_row_major(leaf, data));
+                                let v = build(lf, &ops);
+                                let rm: RecordMatrix<f64, _> = RecordMatrix::from_existing(None, MatrixView::from(v));
+                                let text = format!("{}", rm);
+                                if std::env::var("EMLV_DEBUG").is_ok() { eprintln!("DISPLAY {:?}", text); }
+                                text.replace(['[', ']'], " ")
+                                    .split([',', '\n'])
+                                    .map(|t| t.trim())
+                                    .filter(|t| !t.is_empty())
+                                    .map(|t| t.parse::<f64>().expect("number") as u64)
+                                    .collect()
+                            }
+                            _ => view.row_major_iter().collect(),
+                        }
+                    });
+                    answer(res, |v| format!("{}x{}:{}", rows, cols, show_ids(&v)))
+                }
+            },
+            "set" => {
+                let (r, c): (usize, usize) = (toks[1].parse().unwrap(), toks[2].parse().unwrap());
+                let n = self.leaf.0 * self.leaf.1;
+                let ptr: *mut Matrix<u64> = Box::into_raw(Box::new(Matrix::from_flat_row_major(self.leaf, ids(n))));
+                let leaf: MDyn = Box::new(unsafe { &mut *ptr });
+                let ops = self.ops.clone();
+                let res = catch(move || {
+                    let mut v = build(leaf, &ops);
+                    match via.as_str() {
+                        "view" => {
+                            if let Some(x) = MatrixView::from(&mut v).try_get_reference_mut(r, c) {
+                                *x = SENTINEL;
+                            }
+                        }
+                        "unchecked" => unsafe {
+                            // only emitted for indexes inside the view
+                            *v.get_reference_unchecked_mut(r, c) = SENTINEL;
+                        },
+                        _ => {
+                            if let Some(x) = v.try_get_reference_mut(r, c) {
+                                *x = SENTINEL;
+                            }
+                        }
+                    }
+                });
+                // the view is gone (dropped or unwound): read the leaf back and free it
+                let after: Vec<u64> = unsafe { (*ptr).row_major_iter().collect() };
+                unsafe { drop(Box::from_raw(ptr)) };
+                answer(res, |_| changed(&ids(n), &after))
+            }
+            "partget" => {
+                let k: usize = toks[1].parse().unwrap();
+                let (r, c): (usize, usize) = (toks[2].parse().unwrap(), toks[3].parse().unwrap());
+                match self.parts.get_mut(k) {
+                    None => "no-part".into(),
+                    Some(p) => {
+                        let res = catch(|| match via.as_str() {
+                            "mut" => p.try_get_reference_mut(r, c).map(|x| *x),
+                            "source" => p.source_ref().try_get_reference(r, c).copied(),
+                            "source_mut" => p.source_ref_mut().try_get_reference_mut(r, c).map(|x| *x),
+                            "unchecked" => Some(unsafe { *p.source_ref().get_reference_unchecked(r, c) }),
+                            _ => p.try_get_reference(r, c).copied(),
+                        });
+                        answer(res, show_opt)
+                    }
+                }
+            }
+            "partscan" => {
+                let res = catch(|| {
+                    self.parts
+                        .iter()
+                        .map(|p| {
+                            let v: Vec<u64> = match via.as_str() {
+                                "reference" => p.row_major_reference_iter().copied().collect(),
+                                _ => p.row_major_iter().collect(),
+                            };
+                            format!("{}x{}:{}", p.rows(), p.columns(), show_ids(&v))
+                        })
+                        .collect::<Vec<_>>()
+                        .join(";")
+                });
+                answer(res, |s| s)
+            }
+            "partset" => {
+                let k: usize = toks[1].parse().unwrap();
+                let (r, c): (usize, usize) = (toks[2].parse().unwrap(), toks[3].parse().unwrap());
+                if k >= self.parts.len() {
+                    return "no-part".into();
+                }
+                let n = {
+                    let a = self.partition_args.as_ref().unwrap();
+                    a.0 * a.1
+                };
+                let parts = &mut self.parts;
+                let res = catch(|| {
+                    let p = &mut parts[k];
+                    match via.as_str() {
+                        "set" => {
+                            if r < p.rows() && c < p.columns() {
+                                p.set(r, c, SENTINEL);
+                            }
+                        }
+                        "map_mut" => {
+                            if r < p.rows() && c < p.columns() {
+                                p.map_mut_with_index(|x, i, j| if (i, j) == (r, c) { SENTINEL } else { x });
+                            }
+                        }
+                        _ => {
+                            if let Some(x) = p.try_get_reference_mut(r, c) {
+                                *x = SENTINEL;
+                            }
+                        }
+                    }
+                });
+                // drop every part, then look at the matrix itself
+                self.parts.clear();
+                let after: Vec<u64> = unsafe { (*self.part_matrix).row_major_iter().collect() };
+                let ans = answer(res, |_| changed(&ids(n), &after));
+                // fresh parts for the following lines of the case
+                let _ = self.make_parts();
+                ans
+            }
+            _ => "bad-op".into(),
+        }
+    }
+}
+
+impl Drop for Runner {
+    fn drop(&mut self) {
+        self.drop_parts();
+    }
+}
+
+// ---------------------------------------------------------------------------------------------
+// generation
+// ---------------------------------------------------------------------------------------------
+
+const MGET_VIAS: [&str; 4] = ["ref", "mut", "view", "view_mut"];
+const SCAN_VIAS: [&str; 6] = ["row_major", "column_major", "reference", "rows", "index", "display"];
+const RANGE_VIAS: [&str; 5] = ["indexrange", "tuple", "array", "range", "view"];
+
+fn ring(len: usize) -> Vec<usize> {
+    let mut v = vec![0, len.saturating_sub(1), len, len + 1, MAX - 1, MAX];
+    v.sort();
+    v.dedup();
+    v
+}
+
+/// start / length values of the design: 0..size+2, usize::MAX−1, usize::MAX
+fn range_values(size: usize) -> Vec<usize> {
+    let mut v: Vec<usize> = (0..=size + 2).collect();
+    v.push(MAX - 1);
+    v.push(MAX);
+    v
+}
+
+fn clipped(start: usize, len: usize, size: usize) -> usize {
+    start.saturating_add(len).min(size).saturating_sub(start)
+}
+
+fn range_via(g: &mut Gen, r: (usize, usize), c: (usize, usize)) -> &'static str {
+    let v = *g.rng.pick(&RANGE_VIAS);
+    if v == "range" && (r.0.checked_add(r.1).is_none() || c.0.checked_add(c.1).is_none()) {
+        "indexrange"
+    } else {
+        v
+    }
+}
+
+/// questions about the current view of the given size
+fn gen_queries(g: &mut Gen, rows: usize, cols: usize, tag: &str, full: bool) {
+    let via = *g.rng.pick(&SCAN_VIAS);
+    g.op(format!("scan via={}", via));
+    g.count(&format!("scan.{}", via));
+    if rows == 0 || cols == 0 {
+        g.count("view.empty");
+    }
+    let rs = if full { ring(rows) } else { vec![*g.rng.pick(&ring(rows)), rows.saturating_sub(1)] };
+    let cs = if full { ring(cols) } else { vec![*g.rng.pick(&ring(cols)), 0] };
+    for &r in &rs {
+        for &c in &cs {
+            let inside = r < rows && c < cols;
+            g.count(&format!("mget.{}.{}", tag, if inside { "in" } else { "out" }));
+            if !inside && (rows == 0 || cols == 0) {
+                g.count("mget.out_of_range_on_empty_view");
+            }
+            let via = *g.rng.pick(&MGET_VIAS);
+            g.op(format!("mget {} {} via={}", r, c, via));
+        }
+    }
+    // every cell: unchecked access, and a write followed by a scan of the leaf for a few
+    for r in 0..rows {
+        for c in 0..cols {
+            if full || g.rng.chance(1, 3) {
+                let via = if g.rng.chance(1, 2) { "unchecked" } else { "unchecked_mut" };
+                g.op(format!("uget {} {} via={}", r, c, via));
+                g.count("uget");
+            }
+            if g.rng.chance(1, if full { 2 } else { 6 }) {
+                let via = *g.rng.pick(&["mut", "view", "unchecked"]);
+                g.op(format!("set {} {} via={}", r, c, via));
+                g.count("set.in");
+            }
+        }
+    }
+    let (r, c) = (*g.rng.pick(&ring(rows)), *g.rng.pick(&ring(cols)));
+    if !(r < rows && c < cols) {
+        g.op(format!("set {} {} via=mut", r, c));
+        g.count("set.out");
+    }
+}
+
+fn sizes(g: &Gen) -> Vec<(usize, usize)> {
+    if g.thorough {
+        let mut v = vec![];
+        for r in 1..=4 {
+            for c in 1..=5 {
+                v.push((r, c));
+            }
+        }
+        v
+    } else {
+        vec![(1, 1), (1, 3), (2, 2), (3, 2), (4, 5)]
+    }
+}
+
+fn gen_ranges(g: &mut Gen) {
+    for (rows, cols) in sizes(g) {
+        // every row range with a few column ranges, and vice versa
+        let col_choices = [(0usize, cols), (1, MAX), (cols, 1)];
+        let row_choices = [(0usize, rows), (1, MAX), (rows + 1, 0)];
+        let mut cases: Vec<((usize, usize), (usize, usize))> = vec![];
+        for s in range_values(rows) {
+            for l in range_values(rows) {
+                for cc in col_choices {
+                    cases.push(((s, l), cc));
+                }
+            }
+        }
+        for s in range_values(cols) {
+            for l in range_values(cols) {
+                for rc in row_choices {
+                    cases.push((rc, (s, l)));
+                }
+            }
+        }
+        for (k, (r, c)) in cases.into_iter().enumerate() {
+            if !g.thorough && k % 3 != 0 && (rows, cols) == (4, 5) {
+                continue;
+            }
+            g.op(format!("@ matrix {} {}", rows, cols));
+            let via = range_via(g, r, c);
+            g.op(format!("mrange {}:{} {}:{} via={}", r.0, r.1, c.0, c.1, via));
+            g.count("mrange");
+            if r.0 >= rows || c.0 >= cols {
+                g.count("mrange.fully_out_of_range");
+            } else if r.0.saturating_add(r.1) > rows || c.0.saturating_add(c.1) > cols {
+                g.count("mrange.clipped");
+            }
+            if r.0.checked_add(r.1).is_none() || c.0.checked_add(c.1).is_none() {
+                g.count("mrange.start+length_overflows");
+            }
+            let (vr, vc) = (clipped(r.0, r.1, rows), clipped(c.0, c.1, cols));
+            gen_queries(g, vr, vc, "mrange", false);
+        }
+        // the four reversal settings
+        for rr in 0..2 {
+            for rc in 0..2 {
+                g.op(format!("@ matrix {} {}", rows, cols));
+                g.op(format!("mreverse {} {} via={}", rr, rc, if rr == rc { "view" } else { "direct" }));
+                g.count("mreverse");
+                gen_queries(g, rows, cols, "mreverse", true);
+                g.op("mmap".to_string());
+                g.op("scan via=display".to_string());
+            }
+        }
+        g.op(format!("@ matrix {} {}", rows, cols));
+        gen_queries(g, rows, cols, "matrix", true);
+        g.op("roundtrip".to_string());
+        g.count("roundtrip");
+        gen_queries(g, rows, cols, "roundtrip", true);
+    }
+}
+
+fn gen_nested(g: &mut Gen) {
+    let rounds = if g.thorough { 20000 } else { 800 };
+    for _ in 0..rounds {
+        let (rows, cols) = (g.rng.range(1, 4), g.rng.range(1, 5));
+        g.op(format!("@ matrix {} {}", rows, cols));
+        let (mut vr, mut vc) = (rows, cols);
+        let depth = g.rng.range(1, 3);
+        let mut kinds = vec![];
+        for _ in 0..depth {
+            match g.rng.below(5) {
+                0 | 1 => {
+                    let pick = |g: &mut Gen, size: usize| -> (usize, usize) {
+                        match g.rng.below(4) {
+                            0 => (*g.rng.pick(&range_values(size)), *g.rng.pick(&range_values(size))),
+                            1 => (g.rng.below(size + 1), MAX),
+                            _ => {
+                                let s = g.rng.below(size + 1);
+                                (s, g.rng.range(0, size + 1 - s))
+                            }
+                        }
+                    };
+                    let (r, c) = (pick(g, vr), pick(g, vc));
+                    let via = range_via(g, r, c);
+                    g.op(format!("mrange {}:{} {}:{} via={}", r.0, r.1, c.0, c.1, via));
+                    vr = clipped(r.0, r.1, vr);
+                    vc = clipped(c.0, c.1, vc);
+                    kinds.push("range");
+                }
+                2 | 3 => {
+                    let (a, b) = (g.rng.below(2), g.rng.below(2));
+                    g.op(format!("mreverse {} {}", a, b));
+                    kinds.push("reverse");
+                }
+                _ => {
+                    g.op("roundtrip".to_string());
+                    if vr == 0 || vc == 0 {
+                        g.count("roundtrip.refused_on_empty_view");
+                    }
+                    kinds.push("roundtrip");
+                }
+            }
+        }
+        g.count(&format!("nested.depth={}", depth));
+        g.count(&format!("nested.{}", kinds.join("_of_")));
+        if g.rng.chance(1, 4) {
+            g.op("mmap".to_string());
+        }
+        gen_queries(g, vr, vc, "nested", false);
+    }
+}
+
+fn sublists(n: usize) -> Vec<Vec<usize>> {
+    // all ascending lists over 0..=n (every subset, sorted)
+    let mut out = vec![];
+    for mask in 0u32..(1 << (n + 1)) {
+        out.push((0..=n).filter(|i| mask & (1 << i) != 0).collect());
+    }
+    out
+}
+
+fn gen_partition_case(g: &mut Gen, rows: usize, cols: usize, rp: &[usize], cp: &[usize], valid: bool) {
+    let via = if rp.len() == 1 && cp.len() == 1 && g.rng.chance(1, 2) { "quadrants" } else { "partition" };
+    g.op(format!("@ partition {} {} {} {} via={}", rows, cols, show_usizes(rp), show_usizes(cp), via));
+    g.count(if valid { "partition.accepted" } else { "partition.rejected" });
+    if !valid {
+        return;
+    }
+    let scan_via = *g.rng.pick(&["owned", "reference"]);
+    g.op(format!("partscan via={}", scan_via));
+    let mut rb = rp.to_vec();
+    rb.push(rows);
+    let mut cb = cp.to_vec();
+    cb.push(cols);
+    let nparts = rb.len() * cb.len();
+    g.count_n("partition.parts", nparts as u64);
+    for k in 0..nparts {
+        let (ri, ci) = (k / cb.len(), k % cb.len());
+        let pr = rb[ri] - if ri == 0 { 0 } else { rb[ri - 1] };
+        let pc = cb[ci] - if ci == 0 { 0 } else { cb[ci - 1] };
+        let (pr, pc) = if pr == 0 || pc == 0 { (0, 0) } else { (pr, pc) };
+        if pr == 0 {
+            g.count("partition.empty_part");
+        }
+        for r in ring(pr) {
+            for c in ring(pc) {
+                if r < pr && c < pc || g.rng.chance(1, 3) {
+                    let via = if r < pr && c < pc && g.rng.chance(1, 4) {
+                        "unchecked"
+                    } else {
+                        *g.rng.pick(&["view", "mut", "source", "source_mut"])
+                    };
+                    g.op(format!("partget {} {} {} via={}", k, r, c, via));
+                    g.count(if r < pr && c < pc { "partget.in" } else { "partget.out" });
+                }
+            }
+        }
+        // a write through this part, then a scan of the whole matrix
+        if pr > 0 {
+            let (r, c) = (g.rng.below(pr), g.rng.below(pc));
+            let via = *g.rng.pick(&["mut", "set", "map_mut"]);
+            g.op(format!("partset {} {} {} via={}", k, r, c, via));
+            g.count("partset.in");
+        }
+        if g.rng.chance(1, 2) {
+            g.op(format!("partset {} {} {} via=mut", k, pr, 0));
+            g.count("partset.out");
+        }
+    }
+}
+
+fn gen_partitions(g: &mut Gen) {
+    // exhaustive ascending lists for small matrices
+    let small: Vec<(usize, usize)> = if g.thorough { vec![(1, 1), (2, 2), (3, 2), (2, 3), (3, 3)] } else { vec![(1, 1), (2, 2), (3, 2)] };
+    for (rows, cols) in small {
+        for rp in sublists(rows) {
+            for cp in sublists(cols) {
+                gen_partition_case(g, rows, cols, &rp, &cp, true);
+            }
+        }
+    }
+    // sampled ascending lists for the larger sizes
+    let rounds = if g.thorough { 4000 } else { 150 };
+    for _ in 0..rounds {
+        let (rows, cols) = (g.rng.range(1, 4), g.rng.range(1, 5));
+        let rps = sublists(rows);
+        let cps = sublists(cols);
+        let rp = g.rng.pick(&rps).clone();
+        let cp = g.rng.pick(&cps).clone();
+        gen_partition_case(g, rows, cols, &rp, &cp, true);
+    }
+    // repeated boundaries: accepted when they do not repeat the first one
+    for (rp, cp, valid) in [
+        (vec![2usize, 3, 3], vec![], true),
+        (vec![1, 2, 2, 3], vec![0, 1, 1], true),
+        (vec![0, 1, 1, 1, 4], vec![2, 5, 5], true),
+        (vec![3, 3], vec![], false),
+        (vec![], vec![0, 0], false),
+        (vec![1, 3, 2], vec![], false),
+        (vec![], vec![1, 4, 2, 5], false),
+        (vec![2, 1], vec![], false),
+        (vec![5], vec![], false),
+        (vec![], vec![6], false),
+        (vec![0, MAX], vec![], false),
+        (vec![MAX], vec![MAX], false),
+        (vec![1, 2], vec![3, 2], false),
+        (vec![1, 3, 2], vec![1, 4, 2], false),
+    ] {
+        gen_partition_case(g, 4, 5, &rp, &cp, valid);
+    }
+    // random, mostly malformed lists
+    let rounds = if g.thorough { 4000 } else { 150 };
+    for _ in 0..rounds {
+        let (rows, cols) = (g.rng.range(1, 4), g.rng.range(1, 5));
+        let mk = |g: &mut Gen, n: usize| -> Vec<usize> {
+            let len = g.rng.below(4);
+            (0..len).map(|_| g.rng.below(n + 2)).collect()
+        };
+        let (rp, cp) = (mk(g, rows), mk(g, cols));
+        let ok = |l: &[usize], n: usize| {
+            l.iter().all(|&x| x <= n) && l.iter().skip(1).all(|&x| x > l[0]) && l.windows(2).all(|w| w[0] <= w[1])
+        };
+        let valid = ok(&rp, rows) && ok(&cp, cols);
+        gen_partition_case(g, rows, cols, &rp, &cp, valid);
+    }
+}
+
+
+/// a source operation that is (mostly) valid at the given size; returns the line and the size after
+fn live_source_op(g: &mut Gen, rows: usize, cols: usize, counter: &mut u64) -> (String, usize, usize) {
+    let mut fresh = |n: usize| -> Vec<u64> {
+        (0..n)
+            .map(|_| {
+                *counter += 1;
+                *counter
+            })
+            .collect()
+    };
+    let show = |v: &[u64]| v.iter().map(|x| x.to_string()).collect::<Vec<_>>().join(",");
+    loop {
+        match g.rng.below(12) {
+            0 | 1 => {
+                let p = g.rng.below(rows + 1);
+                return (format!("insert_row {} {}", p, fresh(1)[0]), rows + 1, cols);
+            }
+            2 => {
+                let p = g.rng.below(rows + 1);
+                return (format!("insert_row_with {} {}", p, show(&fresh(cols))), rows + 1, cols);
+            }
+            3 | 4 => {
+                let p = g.rng.below(cols + 1);
+                return (format!("insert_column {} {}", p, fresh(1)[0]), rows, cols + 1);
+            }
+            5 => {
+                let p = g.rng.below(cols + 1);
+                return (format!("insert_column_with {} {}", p, show(&fresh(rows))), rows, cols + 1);
+            }
+            6 if rows > 1 => {
+                let p = g.rng.below(rows);
+                return (format!("remove_row {}", p), rows - 1, cols);
+            }
+            7 if cols > 1 => {
+                let p = g.rng.below(cols);
+                return (format!("remove_column {}", p), rows, cols - 1);
+            }
+            8 if rows > 1 => {
+                let k = g.rng.below(rows);
+                return (format!("retain_mut rows=not(single({})) cols=all", k), rows - 1, cols);
+            }
+            9 if cols > 2 => {
+                return (format!("retain_mut rows=all cols=range(1,{})", cols), rows, cols - 1);
+            }
+            10 => {
+                let (r, c) = (g.rng.below(rows), g.rng.below(cols));
+                return (format!("set {} {} {}", r, c, fresh(1)[0]), rows, cols);
+            }
+            11 => {
+                // a rejected operation: the matrix (and so the view) must stay as it is
+                return match g.rng.below(3) {
+                    0 => (format!("remove_row {}", rows + 1), rows, cols),
+                    1 => (format!("insert_column {} 7", cols + 2), rows, cols),
+                    _ => ("transpose_mut".to_string(), cols, rows),
+                };
+            }
+            _ => continue,
+        }
+    }
+}
+
+/// every question about the live view of the given size
+fn gen_live_queries(g: &mut Gen, rows: usize, cols: usize, depth: usize) {
+    let via = *g.rng.pick(&["row_major", "reference", "index"]);
+    g.op(format!("lscan via={}", via));
+    for r in ring(rows) {
+        for c in ring(cols) {
+            let inside = r < rows && c < cols;
+            if inside || g.rng.chance(1, 2) {
+                g.count(if inside { "live.lget.in" } else { "live.lget.out" });
+                let via = *g.rng.pick(&MGET_VIAS);
+                g.op(format!("lget {} {} via={}", r, c, via));
+            }
+        }
+    }
+    for r in 0..rows {
+        for c in 0..cols {
+            let via = if g.rng.chance(1, 2) { "unchecked" } else { "unchecked_mut" };
+            g.op(format!("luget {} {} via={}", r, c, via));
+            g.count("live.luget");
+            if g.rng.chance(1, 3) {
+                let via = *g.rng.pick(&["mut", "view", "unchecked"]);
+                g.op(format!("lset {} {} via={}", r, c, via));
+                g.count("live.lset");
+            }
+        }
+    }
+    let k = g.rng.below(depth + 1);
+    let (sr, sc) = (g.rng.below(rows), g.rng.below(cols));
+    g.op(format!("srcget {} {} {}", k, sr, sc));
+    g.count("live.srcget");
+}
+
+fn gen_live(g: &mut Gen) {
+    let rounds = if g.thorough { 4000 } else { 260 };
+    let mut counter: u64 = 100;
+    for round in 0..rounds {
+        let (mut rows, mut cols) = (g.rng.range(1, 3), g.rng.range(1, 4));
+        let mut depth = g.rng.range(1, 3);
+        let flags: Vec<String> =
+            (0..depth).map(|_| format!("{}:{}", g.rng.below(2), g.rng.below(2))).collect();
+        let src = ["owned", "mut", "boxed"][round % 3];
+        g.op(format!("@ live {} {} {} src={}", rows, cols, flags.join(","), src));
+        g.count(&format!("live.depth={}", depth));
+        g.count(&format!("live.src={}", src));
+        if round % 4 == 0 {
+            gen_live_queries(g, rows, cols, depth);
+        }
+        let steps = g.rng.range(1, 4);
+        for _ in 0..steps {
+            match g.rng.below(8) {
+                0 if depth < 3 => {
+                    let (a, b) = (g.rng.below(2), g.rng.below(2));
+                    g.op(format!("wrap {} {}", a, b));
+                    depth += 1;
+                    g.count("live.wrap");
+                }
+                1 if depth > 1 => {
+                    g.op("unwrap".to_string());
+                    depth -= 1;
+                    g.count("live.unwrap");
+                }
+                _ => {
+                    let (line, r2, c2) = live_source_op(g, rows, cols, &mut counter);
+                    let via = if g.rng.chance(1, 3) { "view" } else { "direct" };
+                    let name = line.split(' ').next().unwrap().to_string();
+                    g.op(format!("src {} via={}", line, via));
+                    g.count(&format!("live.src_op.{}", name));
+                    if (r2, c2) != (rows, cols) {
+                        g.count("live.source_resized");
+                    }
+                    rows = r2;
+                    cols = c2;
+                }
+            }
+            gen_live_queries(g, rows, cols, depth);
+        }
+    }
+}
+
+pub fn gen(g: &mut Gen) {
+    gen_live(g);
+    gen_ranges(g);
+    gen_nested(g);
+    gen_partitions(g);
+    let _ = bset(1);
 }
